@@ -149,6 +149,8 @@ def _build(js, env, ns):
         return Node("array", items=_build(js["items"], env, ns), logical=lt)
     if t == "map":
         return Node("map", values=_build(js["values"], env, ns), logical=lt)
+    if t == "error":
+        t = "record"  # error records encode, validate and resolve like records
     if t in NAMED:
         space, full = split_name(js, ns)
         if full in env.table:
